@@ -124,7 +124,7 @@ impl Prop for C13 {
     type Case = LoadCase;
     fn id(&self) -> &'static str { "C13" }
     fn expected_counters(&self) -> Vec<&'static str> { vec!["fault.shuttle_scheduled_xml_workers", "probe.document_loaded_twice", "probe.document_spans_several_loader_chunks", "probe.load_into_populated_store", "fault.pool_split_into_several_jobs", "fault.jobs_run_out_of_index_order"] }
-    fn budget(&self, tier: Tier) -> Budget { match tier { Tier::Quick => Budget { runs: 4000, wall_s: 60, recheck: 20 }, Tier::Thorough => Budget { runs: 40_000, wall_s: 1500, recheck: 60 } } }
+    fn budget(&self, tier: Tier) -> Budget { match tier { Tier::Quick => Budget { runs: 4000, wall_s: 60, recheck: 20 }, Tier::Thorough => Budget { runs: 300_000, wall_s: 1000, recheck: 60 } } }
     fn hash_seed(&self, c: &LoadCase) -> u64 { c.hash_seed }
     fn gen(&self, seed: u64, _i: u64, _t: Tier) -> LoadCase {
         let mut r = Rng::sub(seed, "workload"); let mut cfg = Rng::sub(seed, "swarm");
